@@ -419,6 +419,9 @@ fn call_builtin_inner(m: &mut Model, site: &ScopeRef, name: &str, args: Vec<V>) 
             let (a, b) = need2(name, args)?;
             arith(name, &a, &b)
         }
+        // true division as a function is outside the modelled fragment (its pattern form `a / b`
+        // is modelled)
+        "/" => unknown("true division"),
         "-" => match args.len() {
             1 => match &args[0] {
                 V::Int(n) => Ok(V::Int(-n)),
